@@ -296,11 +296,34 @@ func (p *program) loadProgram() error {
 	if err != nil {
 		log.Fatalf("load packages: %v", err)
 	}
+	if err := p.checkUnloadable(&cfg); err != nil {
+		return err
+	}
 
 	p.loadedPackages = pkgs
 	p.ctx = linter.NewContext(p.fset, sizes)
 	p.ctx.SetGoVersion(p.goVersion)
 
+	return nil
+}
+
+// checkUnloadable reports targets that could not be loaded at all:
+// a directory that doesn't exist, files without a valid package clause.
+// Such packages have no name, pkgload drops them silently, so without this
+// check a typo in a path would give a successful run.
+// Packages that merely have type errors are still analysed as far as possible.
+func (p *program) checkUnloadable(cfg *packages.Config) error {
+	listCfg := *cfg
+	listCfg.Mode = packages.NeedName | packages.NeedFiles
+	pkgs, err := packages.Load(&listCfg, p.packages...)
+	if err != nil {
+		return fmt.Errorf("load packages: %w", err)
+	}
+	for _, pkg := range pkgs {
+		if pkg.Name == "" && len(pkg.Errors) != 0 {
+			return fmt.Errorf("load packages: %s: %v", pkg.ID, pkg.Errors[0])
+		}
+	}
 	return nil
 }
 
